@@ -165,7 +165,7 @@ theorem bipOfNx_bipToNx {G : BipG} (h : BipG.Inv G) :
         have := idxOf_range_map G.r (G.l + 1) (e.2 - 1) (by omega)
         rw [show e.2 - 1 + (G.l + 1) = e.2 + G.l by omega] at this
         simp only [rank, this]; omega
-      simp only [List.map_cons, List.foldlM_cons, hc1, hc2, Bool.not_true, hr1, hr2, BipG.addEdgesFrom_cons]
+      simp only [List.map_cons, List.foldlM_cons, hc1, hc2, Bool.not_true, hr1, hr2, BipG.addEdgesFrom_cons_io]
       simp only [show ((false == true) = false) from rfl, Bool.false_eq_true, if_false, Bool.not_false, if_true]
       cases g.addEdge (e.1 : Int) (e.2 : Int) with
       | error x => rfl
